@@ -14,6 +14,10 @@ RULE = (
     "unity inside the boundary knots on training and later data; invalid combinations refused); poly degree 1..6 x "
     "raw (orthonormal, orthogonal to 1, span of x..x^d, exact powers), two poly instances in one process.  A case is "
     "one (vector, offset, scale); non-trivial: the vector has ties or a large offset"
+    '  Added: zero-mean vectors, two instances of one transform, invalid parameters, design-level histories '
+    '(frame edited in place, caller-defined center / scale helpers, refused frames between good ones, '
+    'integer-typed later frames, keyword forms of poly / bs, group-specific transforms), the same whole '
+    'numbers stored as int64 / int32 / int16 / int8 / uint8. '
 )
 ASSUMPTIONS = [
     "tolerances are fixed constants scaled by the conditioning (offset/scale); the reference formulas pass them with two orders of magnitude to spare (see selftest)",
